@@ -1,5 +1,5 @@
 /-
-  Lemmas/IncentBound — a stream never hands out more than its coins (after fixes D1, D2, D3):
+  Lemmas/IncentBound — a stream never hands out more than its coins (after fixes D1, D2; D3 not applied — upcoming streams are `Fresh`, so activation at any epoch start keeps the bound):
   the per-stream invariant `distributed + pending shares of this epoch + (remaining epochs - 1) · (shares
   of one epoch) ≤ coins`, its preservation by the paged distribution (window accounting along the
   iterator) and by epoch ends / starts.
@@ -950,6 +950,14 @@ structure SStat (s : State) : Prop where
   tw : ∀ st ∈ s.streams, st.totalWeight = totalWeightOf st.recs
   recs : ∀ st ∈ s.streams, StrictInc (st.recs.map (·.gauge))
 
+/-- an upcoming stream is still as `CreateStream` stored it -/
+def Fresh (s : State) : Prop :=
+  ∀ st ∈ s.streams, st.id ∈ s.upcoming.ids →
+    st.distributed = [] ∧ st.filled = 0 ∧ st.ecEmpty = false ∧ st.epochCoins = Coins.quo st.coins st.numEpochs ∧ st.numEpochs ≠ 0
+
+theorem Fresh_congr {s s' : State} (h1 : s'.streams = s.streams) (h2 : s'.upcoming = s.upcoming) (h : Fresh s) : Fresh s' := by
+  intro st hm hu; rw [h1] at hm; rw [h2] at hu; exact h st hm hu
+
 theorem SB_noOver (s : State) (h : SB s) : NoOver s.streams := by
   intro st hst i
   have := h st hst i
@@ -1219,6 +1227,24 @@ theorem core_cases (s : State) (es : List Nat) (streams : List Stream) (ee : Boo
       exact absurd (by rw [← hvid]; exact c6 v hv) hx
 
 
+theorem core_fresh (s : State) (es : List Nat) (streams : List Stream) (ee : Bool) (s' : State)
+    (hc : CoreConcl s es streams ee s') (hs : SStruct s) (hs' : SStruct s') (hin : GoodInput s streams) (hf : Fresh s) : Fresh s' := by
+  intro st' hm hu
+  have hup : s'.upcoming = s.upcoming := by obtain ⟨_, _, c2, _⟩ := hc; exact c2
+  rw [hup] at hu
+  obtain ⟨_, _, n3⟩ := List.nodup_append.1 hs.nodup
+  rcases core_cases s es streams ee s' hc hs hs' st' hm with ⟨a1, _, _⟩ | ⟨v, st0, _, b2, b3, b4, _, _⟩
+  · exact hf st' a1 hu
+  · exfalso
+    obtain ⟨y, hy, hyid⟩ := List.mem_map.1 b2
+    have hact : st0.id ∈ s.active.ids := by rw [← hyid]; exact (hin.2 y hy).2
+    have hid : st'.id = st0.id := by
+      rw [b4]; unfold finVal
+      cases ee with
+      | false => simp only [Bool.false_eq_true, if_false]; rw [b3]
+      | true => simp only [if_true]; rw [atEpochEnd_id, b3]
+    exact n3 st0.id hact st0.id (by rw [← hid]; exact hu) rfl
+
 /-! ### the bound is kept by the streamer's EndBlock and re-established around epoch boundaries -/
 
 theorem id_le_length {ss : List Stream} (hid : SidOK ss) {st : Stream} (h : st ∈ ss) : st.id ≤ ss.length := by
@@ -1322,6 +1348,10 @@ theorem pendId_filled (p : Pointer) (st : Stream) (f : Nat) (i : Nat) : pendId p
 theorem afterEpochEnd_SB (s s' : State) (e : Nat) (hg : GInv s) (hs : SStruct s) (hstat : SStat s) (hsb : SB s)
     (hlen : s.streams.length < maxU64) (h : streamerAfterEpochEnd s e = .ok s') : SB s' ∧ SStat s' := by
   unfold streamerAfterEpochEnd at h
+  by_cases hemp : (activeStreamsFor s e).isEmpty = true
+  · rw [if_pos hemp] at h
+    simp only [Except.ok.injEq] at h; subst h; exact ⟨hsb, hstat⟩
+  rw [if_neg hemp] at h
   cases hd : strDistribute s [e] (activeStreamsFor s e) maxU64 true with
   | error x => simp [hd] at h
   | ok s1 =>
@@ -1425,21 +1455,22 @@ theorem afterEpochEnd_SB (s s' : State) (e : Nat) (hg : GInv s) (hs : SStruct s)
           rw [b3]; exact hstat.recs st0 b1
 
 
-theorem activateDue_exact (e : Nat) : ∀ (l : List Stream) (s s1 : State), activateDue e l s = .ok s1 →
+theorem activateDue_exact : ∀ (l : List Stream) (s s1 : State), activateDue l s = .ok s1 →
     s1.streams = s.streams ∧ s1.ptrs = s.ptrs ∧ s1.now = s.now ∧
-    (∀ x, x ∈ s1.active.ids → x ∈ s.active.ids ∨ ∃ st ∈ l, st.id = x ∧ st.epochId = e) ∧
-    (∀ x, x ∈ s.active.ids → x ∈ s1.active.ids) := by
+    (∀ x, x ∈ s1.active.ids → x ∈ s.active.ids ∨ ∃ st ∈ l, st.id = x) ∧
+    (∀ x, x ∈ s.active.ids → x ∈ s1.active.ids) ∧
+    (∀ x, x ∈ s1.upcoming.ids → x ∈ s.upcoming.ids) := by
   intro l
   induction l with
   | nil =>
     intro s s1 h
     simp only [activateDue, Except.ok.injEq] at h
     subst h
-    exact ⟨rfl, rfl, rfl, fun x hx => Or.inl hx, fun x hx => hx⟩
+    exact ⟨rfl, rfl, rfl, fun x hx => Or.inl hx, fun x hx => hx, fun x hx => hx⟩
   | cons st rest ih =>
     intro s s1 h
     unfold activateDue at h
-    by_cases hc : (st.epochId == e && decide (st.start ≤ s.now)) = true
+    by_cases hc : st.start ≤ s.now
     · rw [if_pos hc] at h
       cases hd : Refs.del s.upcoming st.start st.id with
       | none => simp [hd] at h
@@ -1449,20 +1480,24 @@ theorem activateDue_exact (e : Nat) : ∀ (l : List Stream) (s s1 : State), acti
         | none => simp [hf] at h
         | some a =>
           simp only [hf] at h
-          obtain ⟨r1, r2, r3, r4, r5⟩ := ih _ _ h
-          have hep : st.epochId = e := by simp at hc; exact hc.1
-          refine ⟨r1, r2, r3, ?_, ?_⟩
+          obtain ⟨r1, r2, r3, r4, r5, r6⟩ := ih _ _ h
+          refine ⟨r1, r2, r3, ?_, ?_, ?_⟩
           · intro x hx
             rcases r4 x hx with h1 | ⟨y, hy, hy2⟩
             · rcases (Refs.add_mem hf x).1 h1 with h2 | h2
               · exact Or.inl h2
-              · exact Or.inr ⟨st, List.mem_cons_self, h2.symm, hep⟩
+              · exact Or.inr ⟨st, List.mem_cons_self, h2.symm⟩
             · exact Or.inr ⟨y, List.mem_cons_of_mem _ hy, hy2⟩
           · intro x hx
             exact r5 x ((Refs.add_mem hf x).2 (Or.inl hx))
+          · intro x hx
+            have := r6 x hx
+            -- deletion only removes
+            obtain ⟨_, _, _⟩ := Refs.del_spec (fun _ => 0) s.upcoming _ _ u hd
+            exact Refs.del_subset hd x this
     · rw [if_neg hc] at h
-      obtain ⟨r1, r2, r3, r4, r5⟩ := ih _ _ h
-      refine ⟨r1, r2, r3, ?_, r5⟩
+      obtain ⟨r1, r2, r3, r4, r5, r6⟩ := ih _ _ h
+      refine ⟨r1, r2, r3, ?_, r5, r6⟩
       intro x hx
       rcases r4 x hx with h1 | ⟨y, hy, hy2⟩
       · exact Or.inl h1
@@ -1548,22 +1583,58 @@ theorem started_strong (st : Stream) (p : Pointer) (htw : st.totalWeight = total
   have := hle i
   omega
 
-theorem beforeEpochStart_SB (s s' : State) (e : Nat) (hs : SStruct s) (hstat : SStat s) (hsb : SB s)
-    (h : streamerBeforeEpochStart s e = .ok s') : SB s' ∧ SStat s' := by
+theorem startStreams_upcoming : ∀ (l : List Stream) (s s' : State), startStreams l s = .ok s' → s'.upcoming = s.upcoming := by
+  intro l
+  induction l with
+  | nil => intro s s' h; simp only [startStreams, Except.ok.injEq] at h; subst h; rfl
+  | cons st rest ih =>
+    intro s s' h
+    unfold startStreams at h
+    cases hsub : Coins.sub? st.coins st.distributed with
+    | none => simp [hsub] at h
+    | some remain =>
+      simp only [hsub] at h
+      split at h
+      · simp at h
+      · rw [ih _ _ h]; rfl
+
+/-- a fresh stream that has just become active satisfies the bound whatever the pointer is -/
+theorem fresh_strong (st : Stream) (p : Pointer) (htw : st.totalWeight = totalWeightOf st.recs)
+    (hf : st.distributed = [] ∧ st.filled = 0 ∧ st.ecEmpty = false ∧ st.epochCoins = Coins.quo st.coins st.numEpochs ∧ st.numEpochs ≠ 0) (i : Nat) :
+    amt st.distributed i + pendId p st i + (st.numEpochs - st.filled - 1) * sharesOf st st.recs i ≤ amt st.coins i := by
+  obtain ⟨h1, h2, _, h4, h5⟩ := hf
+  have hall := sharesOf_all_le st htw i
+  have hpend := pendId_le_all p st i
+  rw [h4, amt_quo] at hall
+  rw [h1, h2]
+  simp only [amt_nil, Nat.zero_add, Nat.sub_zero]
+  generalize sharesOf st st.recs i = A at *
+  generalize pendId p st i = P at *
+  have hmul : st.numEpochs * A ≤ st.numEpochs * (amt st.coins i / st.numEpochs) := Nat.mul_le_mul_left _ hall
+  have hdiv := Nat.mul_div_le (amt st.coins i) st.numEpochs
+  have hsplit : st.numEpochs * A = A + (st.numEpochs - 1) * A := by
+    have : st.numEpochs = (st.numEpochs - 1) + 1 := by omega
+    conv => lhs; rw [this]
+    rw [Nat.add_mul, Nat.one_mul, Nat.add_comm]
+  omega
+
+theorem beforeEpochStart_SB (s s' : State) (e : Nat) (hs : SStruct s) (hstat : SStat s) (hfresh : Fresh s) (hsb : SB s)
+    (h : streamerBeforeEpochStart s e = .ok s') : SB s' ∧ SStat s' ∧ Fresh s' := by
   unfold streamerBeforeEpochStart at h
-  cases ha : activateDue e (upcomingStreams s) s with
+  cases ha : activateDue (upcomingStreams s) s with
   | error x => simp [ha] at h
   | ok s1 =>
     simp only [ha] at h
-    obtain ⟨a1, a2, _, a4, a5⟩ := activateDue_exact e _ _ _ ha
-    obtain ⟨hs1, _, _, _⟩ := activateDue_spec e _ _ _ hs ha
+    obtain ⟨a1, a2, _, a4, a5, a6⟩ := activateDue_exact _ _ _ ha
+    obtain ⟨hs1, _, _, _⟩ := activateDue_spec _ _ _ hs ha
     obtain ⟨gi1, gi2⟩ := activeStreamsFor_good s1 hs1 e
     obtain ⟨b1, b2, _, b4, b5⟩ := startStreams_exact _ _ _ hs1 gi1 (fun st hst => (gi2 st hst).1) h
     obtain ⟨hs', _, _, _⟩ := startStreams_spec _ _ _ hs1 gi1 (fun st hst => (gi2 st hst).1) h
-    -- upcoming streams handed to activateDue are stored copies
-    have hup : ∀ st ∈ upcomingStreams s, getS s.streams st.id = some st := by
+    have hup1 : s'.upcoming = s1.upcoming := (startStreams_upcoming _ _ _ h)
+    -- upcoming streams handed to activateDue are stored copies with upcoming ids
+    have hup : ∀ st ∈ upcomingStreams s, getS s.streams st.id = some st ∧ st.id ∈ s.upcoming.ids := by
       obtain ⟨_, n2, _⟩ := List.nodup_append.1 hs.nodup
-      exact fun st hst => ((streamsOf_spec s.streams hs.sid s.upcoming.ids n2).2 st hst).1
+      exact fun st hst => (streamsOf_spec s.streams hs.sid s.upcoming.ids n2).2 st hst
     have classify : ∀ st' ∈ s'.streams,
         (st' ∈ s.streams ∧ st'.id ∉ (activeStreamsFor s1 e).map (·.id)) ∨
         (∃ st ∈ activeStreamsFor s1 e, st ∈ s.streams ∧ st' = started st ∧ st.numEpochs - st.filled ≠ 0 ∧ ∀ i, amt st.distributed i ≤ amt st.coins i) := by
@@ -1579,28 +1650,24 @@ theorem beforeEpochStart_SB (s s' : State) (e : Nat) (hs : SStruct s) (hstat : S
         have := b4 _ hx
         rw [hget', a1] at this
         exact ⟨mem_of_getS this.symm, hx⟩
-    constructor
+    refine ⟨?_, ?_, ?_⟩
     · intro st' hm i
       rcases classify st' hm with ⟨c1, c2⟩ | ⟨st, hst, c1, c2, c3, c4⟩
       · unfold SBst
         rw [b2]
         by_cases hact : st'.id ∈ s1.active.ids
         · rw [if_pos hact]
-          -- it was active before: otherwise it has just been activated, has epoch e, and would be in the list
-          have hact0 : st'.id ∈ s.active.ids := by
-            rcases a4 _ hact with h1 | ⟨y, hy, hy1, hy2⟩
-            · exact h1
-            · exfalso
-              have hgy := hup y hy
-              rw [hy1, getS_of_mem hs.sid c1] at hgy
-              have : st' = y := Option.some.inj hgy
-              apply c2
-              exact mem_activeStreamsFor s1 hs1 e st' (by rw [a1]; exact c1) hact (by rw [this]; exact hy2)
-          have hne : st'.epochId ≠ e := fun he => c2 (mem_activeStreamsFor s1 hs1 e st' (by rw [a1]; exact c1) hact he)
-          have := hsb st' c1 i
-          unfold SBst at this; rw [if_pos hact0] at this
-          unfold ptrOfEpoch at *
-          rw [b1, a2]; exact this
+          unfold ptrOfEpoch
+          rw [b1, a2]
+          rcases a4 _ hact with h1 | ⟨y, hy, hy1⟩
+          · have := hsb st' c1 i
+            unfold SBst ptrOfEpoch at this; rw [if_pos h1] at this; exact this
+          · -- just activated: it was an untouched upcoming stream
+            obtain ⟨hgy, hyu⟩ := hup y hy
+            rw [hy1, getS_of_mem hs.sid c1] at hgy
+            have hyst : st' = y := Option.some.inj hgy
+            have hfr := hfresh st' c1 (by rw [hyst]; exact hyu)
+            exact fresh_strong st' _ (hstat.tw st' c1) hfr i
         · rw [if_neg hact]
           have hact0 : st'.id ∉ s.active.ids := fun hx => hact (a5 _ hx)
           have := hsb st' c1 i
@@ -1618,7 +1685,17 @@ theorem beforeEpochStart_SB (s s' : State) (e : Nat) (hs : SStruct s) (hstat : S
         rcases classify st' hm with ⟨c1, _⟩ | ⟨st, _, c1, c2, _, _⟩
         · exact hstat.recs st' c1
         · rw [c2]; exact hstat.recs st c1
-
+    · intro st' hm hu
+      rw [hup1] at hu
+      have hu0 := a6 _ hu
+      rcases classify st' hm with ⟨c1, _⟩ | ⟨st, hst, c1, c2, _, _⟩
+      · exact hfresh st' c1 hu0
+      · -- a restarted stream is active in s1, hence not upcoming
+        exfalso
+        have hact1 : st.id ∈ s1.active.ids := (gi2 st hst).2
+        obtain ⟨_, _, n3⟩ := List.nodup_append.1 hs1.nodup
+        have hid : st'.id = st.id := by rw [c2]; rfl
+        exact n3 st.id hact1 st.id (by rw [← hid]; exact hu) rfl
 
 /-! ### frames, messages, blocks -/
 
@@ -1683,10 +1760,10 @@ theorem checkFinished_frame2 : ∀ (l : List Gauge) (s : State), checkFinished l
     · exact ih s
 
 theorem incAfterEpochEnd_frame (s : State) (e : Nat) (s' : State) (h : incAfterEpochEnd s e = .ok s') :
-    s'.streams = s.streams ∧ s'.active = s.active ∧ s'.ptrs = s.ptrs := by
+    s'.streams = s.streams ∧ s'.active = s.active ∧ s'.ptrs = s.ptrs ∧ s'.upcoming = s.upcoming := by
   unfold incAfterEpochEnd at h
   split at h
-  · simp only [Except.ok.injEq] at h; subst h; exact ⟨rfl, rfl, rfl⟩
+  · simp only [Except.ok.injEq] at h; subst h; exact ⟨rfl, rfl, rfl, rfl⟩
   · simp only at h
     generalize hf : (fun g : Gauge => if (g.status == GStatus.upcoming && decide (g.start ≤ s.now)) = true then { g with status := GStatus.active } else g) = f at h
     cases hd : incDistribute { s with gauges := s.gauges.map f } (List.filter (fun x => x.status == GStatus.active) (s.gauges.map f)) true with
@@ -1698,7 +1775,7 @@ theorem incAfterEpochEnd_frame (s : State) (e : Nat) (s' : State) (h : incAfterE
       rw [← h, f2]
       simp only
       rw [f1]
-      exact ⟨rfl, rfl, rfl⟩
+      exact ⟨rfl, rfl, rfl, rfl⟩
 
 /-- `validateGauges` accepted the records: gauge ids strictly increasing -/
 theorem validateRecs_strict (s : State) : ∀ (rs : List Rec) (last : Nat) (seen : List Nat), validateRecs s rs last seen = true →
@@ -1760,15 +1837,38 @@ structure Inv (s : State) : Prop where
   struct : SStruct s
   sb : SB s
   stat : SStat s
+  fresh : Fresh s
   len : s.streams.length < maxU64
 
 theorem streamerAfterEpochEnd_inv (s : State) (e : Nat) (s' : State) (hi : Inv s) (h : streamerAfterEpochEnd s e = .ok s') : Inv s' := by
   obtain ⟨a, b⟩ := afterEpochEnd_SB s s' e hi.ginv hi.struct hi.stat hi.sb hi.len h
   have hst := (streamerAfterEpochEnd_sstep s e s' hi.ginv hi.struct h).struct
-  refine ⟨(streamerAfterEpochEnd_spec s e s' hi.ginv h).1, hst, a, b, ?_⟩
+  refine ⟨(streamerAfterEpochEnd_spec s e s' hi.ginv h).1, hst, a, b, ?_, ?_⟩
+  · unfold streamerAfterEpochEnd at h
+    by_cases hemp : (activeStreamsFor s e).isEmpty = true
+    · rw [if_pos hemp] at h
+      simp only [Except.ok.injEq] at h; subst h; exact hi.fresh
+    rw [if_neg hemp] at h
+    cases hd : strDistribute s [e] (activeStreamsFor s e) maxU64 true with
+    | error x => simp [hd] at h
+    | ok s1 =>
+      simp only [hd, Except.ok.injEq] at h
+      have hin := activeStreamsFor_good s hi.struct e
+      have hst2 : ∀ st ∈ activeStreamsFor s e, StrictInc (st.recs.map (·.gauge)) ∧ st.id < maxU64 := by
+        intro st hm
+        have hmem : st ∈ s.streams := mem_of_getS (hin.2 st hm).1
+        exact ⟨hi.stat.recs st hmem, by have := id_le_length hi.struct.sid hmem; have := hi.len; omega⟩
+      have hc := strDistribute_core s _ _ _ _ s1 hi.ginv hi.struct hin hst2 hd
+      have hs1 := (strDistribute_streams s _ _ _ _ s1 hi.ginv hi.struct hin hd).1
+      have := core_fresh s _ _ true s1 hc hi.struct hs1 hin hi.fresh
+      rw [← h]; exact Fresh_congr rfl rfl this
   have hm := (streamerAfterEpochEnd_sstep s e s' hi.ginv hi.struct h).mono
   -- length is unchanged: derive it from the exact characterisation
   unfold streamerAfterEpochEnd at h
+  by_cases hemp : (activeStreamsFor s e).isEmpty = true
+  · rw [if_pos hemp] at h
+    simp only [Except.ok.injEq] at h; subst h; exact hi.len
+  rw [if_neg hemp] at h
   cases hd : strDistribute s [e] (activeStreamsFor s e) maxU64 true with
   | error x => simp [hd] at h
   | ok s1 =>
@@ -1782,19 +1882,19 @@ theorem streamerAfterEpochEnd_inv (s : State) (e : Nat) (s' : State) (hi : Inv s
     rw [← h]; simp only; rw [c1]; exact hi.len
 
 theorem incAfterEpochEnd_inv (s : State) (e : Nat) (s' : State) (hi : Inv s) (h : incAfterEpochEnd s e = .ok s') : Inv s' := by
-  obtain ⟨f1, f2, f3⟩ := incAfterEpochEnd_frame s e s' h
+  obtain ⟨f1, f2, f3, f4⟩ := incAfterEpochEnd_frame s e s' h
   exact ⟨(incAfterEpochEnd_spec s e s' hi.ginv h).1, (incAfterEpochEnd_sstep s e s' hi.ginv hi.struct h).struct,
-    SB_congr f1 f2 f3 hi.sb, SStat_congr f1 hi.stat, by rw [f1]; exact hi.len⟩
+    SB_congr f1 f2 f3 hi.sb, SStat_congr f1 hi.stat, Fresh_congr f1 f4 hi.fresh, by rw [f1]; exact hi.len⟩
 
 theorem streamerBeforeEpochStart_inv (s : State) (e : Nat) (s' : State) (hi : Inv s) (h : streamerBeforeEpochStart s e = .ok s') : Inv s' := by
-  obtain ⟨a, b⟩ := beforeEpochStart_SB s s' e hi.struct hi.stat hi.sb h
-  refine ⟨(streamerBeforeEpochStart_same s e s' h).ginv hi.ginv, (streamerBeforeEpochStart_sstep s e s' hi.struct h).struct, a, b, ?_⟩
+  obtain ⟨a, b, c⟩ := beforeEpochStart_SB s s' e hi.struct hi.stat hi.fresh hi.sb h
+  refine ⟨(streamerBeforeEpochStart_same s e s' h).ginv hi.ginv, (streamerBeforeEpochStart_sstep s e s' hi.struct h).struct, a, b, c, ?_⟩
   unfold streamerBeforeEpochStart at h
-  cases ha : activateDue e (upcomingStreams s) s with
+  cases ha : activateDue (upcomingStreams s) s with
   | error x => simp [ha] at h
   | ok s1 =>
     simp only [ha] at h
-    rw [startStreams_len _ _ _ h, (activateDue_exact e _ _ _ ha).1]; exact hi.len
+    rw [startStreams_len _ _ _ h, (activateDue_exact _ _ _ ha).1]; exact hi.len
 
 theorem applyHook_inv (f : State → Res) (s : State) (hi : Inv s) (hf : ∀ s', f s = .ok s' → Inv s') : Inv (applyHook f s) := by
   unfold applyHook
@@ -1804,7 +1904,7 @@ theorem applyHook_inv (f : State → Res) (s : State) (hi : Inv s) (hf : ∀ s',
 
 theorem Inv_frame {s s' : State} (hi : Inv s) (h1 : s'.streams = s.streams) (h2 : s'.active = s.active) (h3 : s'.upcoming = s.upcoming)
     (h4 : s'.ptrs = s.ptrs) (hg : GInv s') : Inv s' :=
-  ⟨hg, SStruct_congr h1 h2 h3 hi.struct, SB_congr h1 h2 h4 hi.sb, SStat_congr h1 hi.stat, by rw [h1]; exact hi.len⟩
+  ⟨hg, SStruct_congr h1 h2 h3 hi.struct, SB_congr h1 h2 h4 hi.sb, SStat_congr h1 hi.stat, Fresh_congr h1 h3 hi.fresh, by rw [h1]; exact hi.len⟩
 
 theorem epochTick_inv (s : State) (e : Nat) (hi : Inv s) : Inv (epochTick s e) := by
   unfold epochTick
@@ -1841,8 +1941,11 @@ theorem endBlock_inv (s s' : State) (hi : Inv s) (h : streamerEndBlock s = .ok s
     intro st hm
     have hmem := mem_streamsOf hm
     exact ⟨hi.stat.recs st hmem, by have := id_le_length hi.struct.sid hmem; have := hi.len; omega⟩
-  obtain ⟨_, c1, _⟩ := strDistribute_core s _ _ _ _ s' hi.ginv hi.struct hin hst h'
-  exact ⟨(strDistribute_spec _ _ _ _ _ _ hi.ginv h').1, (strDistribute_streams s _ _ _ _ s' hi.ginv hi.struct hin h').1, a, b, by rw [c1]; exact hi.len⟩
+  have hc := strDistribute_core s _ _ _ _ s' hi.ginv hi.struct hin hst h'
+  have hs' := (strDistribute_streams s _ _ _ _ s' hi.ginv hi.struct hin h').1
+  have hfr := core_fresh s _ _ false s' hc hi.struct hs' hin hi.fresh
+  obtain ⟨_, c1, _⟩ := hc
+  exact ⟨(strDistribute_spec _ _ _ _ _ _ hi.ginv h').1, hs', a, b, hfr, by rw [c1]; exact hi.len⟩
 
 
 /-- the stream `CreateStream` stores -/
@@ -1852,7 +1955,7 @@ def newStream (s : State) (c : Coins) (rs : List Rec) (start' e n : Nat) : Strea
 /-- `createStream` either leaves the state alone or appends a fresh upcoming stream with validated records -/
 theorem createStream_shape (s : State) (c : Coins) (rs : List Rec) (st e n : Nat) :
     (createStream s c rs st e n).2 = s ∨
-    (validateRecs s rs 0 [] = true ∧ ∃ u start',
+    (validateRecs s rs 0 [] = true ∧ ∃ u start', n ≠ 0 ∧ Refs.add s.upcoming start' (s.streams.length + 1) = some u ∧
       (createStream s c rs st e n).2 = { s with streams := s.streams ++ [newStream s c rs start' e n], upcoming := u }) := by
   unfold createStream
   by_cases h1 : (c.isZero || decide (n = 0)) = true
@@ -1881,15 +1984,31 @@ theorem createStream_shape (s : State) (c : Coins) (rs : List Rec) (st e n : Nat
               · rw [if_neg h5]
                 cases hadd : Refs.add s.upcoming (if st < s.now then s.now else st) (s.streams.length + 1) with
                 | none => exact Or.inl rfl
-                | some u => exact Or.inr ⟨hv, u, _, rfl⟩
+                | some u => exact Or.inr ⟨hv, u, _, by simp at h1; exact h1.2, hadd, rfl⟩
 
 theorem createStream_inv (s : State) (hi : Inv s) (c : Coins) (rs : List Rec) (st e n : Nat)
     (hlen : (createStream s c rs st e n).2.streams.length < maxU64) : Inv (createStream s c rs st e n).2 := by
   have hsame := createStream_same s c rs st e n
   have hstruct := (createStream_sstep s hi.struct c rs st e n).struct
-  rcases createStream_shape s c rs st e n with h | ⟨hv, u, start', h⟩
+  rcases createStream_shape s c rs st e n with h | ⟨hv, u, start', hn0, hadd0, h⟩
   · rw [h]; exact hi
-  · refine ⟨hsame.ginv hi.ginv, hstruct, ?_, ?_, hlen⟩
+  · refine ⟨hsame.ginv hi.ginv, hstruct, ?_, ?_, ?_, hlen⟩
+    rotate_left 2
+    · -- Fresh
+      rw [h]
+      intro st' hm hu
+      simp only at hm hu
+      rcases List.mem_append.1 hm with h1 | h1
+      · -- an old stream: its id is below the new one, so it was upcoming before
+        have hidle := id_le_length hi.struct.sid h1
+        have hu0 : st'.id ∈ s.upcoming.ids := by
+          have hadd := hadd0
+          rcases (Refs.add_mem hadd st'.id).1 hu with h2 | h2
+          · exact h2
+          · omega
+        exact hi.fresh st' h1 hu0
+      · simp only [List.mem_singleton] at h1; rw [h1]
+        exact ⟨rfl, rfl, rfl, rfl, hn0⟩
     · rw [h]
       intro st' hm i
       simp only at hm
@@ -1924,7 +2043,7 @@ theorem createStream_inv (s : State) (hi : Inv s) (c : Coins) (rs : List Rec) (s
 theorem moveToFinished_inv (s : State) (hi : Inv s) (b : Bool) (st : Stream) (s' : State) (h : moveToFinished s b st = some s') : Inv s' := by
   have hsame := moveToFinished_same s b st s' h
   have hstruct := (moveToFinished_sstep s hi.struct b st s' h).struct
-  have hfacts : s'.streams = s.streams ∧ s'.ptrs = s.ptrs ∧ ∀ x, x ∈ s'.active.ids → x ∈ s.active.ids := by
+  have hfacts : s'.streams = s.streams ∧ s'.ptrs = s.ptrs ∧ (∀ x, x ∈ s'.active.ids → x ∈ s.active.ids) ∧ (∀ x, x ∈ s'.upcoming.ids → x ∈ s.upcoming.ids) := by
     unfold moveToFinished at h
     cases b with
     | true =>
@@ -1940,7 +2059,7 @@ theorem moveToFinished_inv (s : State) (hi : Inv s) (b : Bool) (st : Stream) (s'
           subst h
           obtain ⟨n1, _, _⟩ := List.nodup_append.1 hi.struct.nodup
           obtain ⟨_, _, d3⟩ := Refs.del_spec (fun _ => 0) s.active _ _ r hd
-          exact ⟨rfl, rfl, fun x hx => (((d3 n1).2 x).1 hx).1⟩
+          exact ⟨rfl, rfl, fun x hx => (((d3 n1).2 x).1 hx).1, fun x hx => hx⟩
     | false =>
       simp only [Bool.false_eq_true, if_false] at h
       cases hd : Refs.del s.upcoming st.start st.id with
@@ -1952,9 +2071,11 @@ theorem moveToFinished_inv (s : State) (hi : Inv s) (b : Bool) (st : Stream) (s'
         | some f =>
           simp only [hf, Option.some.injEq] at h
           subst h
-          exact ⟨rfl, rfl, fun x hx => hx⟩
-  obtain ⟨f1, f2, f3⟩ := hfacts
-  refine ⟨hsame.ginv hi.ginv, hstruct, ?_, SStat_congr f1 hi.stat, by rw [f1]; exact hi.len⟩
+          exact ⟨rfl, rfl, fun x hx => hx, fun x hx => Refs.del_subset hd x hx⟩
+  obtain ⟨f1, f2, f3, f5⟩ := hfacts
+  refine ⟨hsame.ginv hi.ginv, hstruct, ?_, SStat_congr f1 hi.stat, ?_, by rw [f1]; exact hi.len⟩
+  rotate_left
+  · intro st' hm hu; rw [f1] at hm; exact hi.fresh st' hm (f5 _ hu)
   intro st' hm i
   rw [f1] at hm
   have := hi.sb st' hm i
@@ -2028,7 +2149,7 @@ theorem step_inv (s : State) (op : Op) (hi : Inv s) (hw : op.wf) (hw2 : op.wfS) 
 
 theorem init_inv (now mi : Nat) : Inv (init now mi) :=
   ⟨init_ginv now mi, init_sstruct now mi, by intro st hm; simp [init] at hm, ⟨by intro st hm; simp [init] at hm, by intro st hm; simp [init] at hm⟩,
-   by simp [init, maxU64]⟩
+   by intro st hm; simp [init] at hm, by simp [init, maxU64]⟩
 
 /-- **the full invariant holds along every history** without re-targeting, as long as fewer than 2^64-1
     streams have been created -/
